@@ -1,0 +1,47 @@
+//go:build verif
+
+package proxy
+
+import (
+	"github.com/datastax/cql-proxy/proxycore"
+)
+
+// Verification hooks (build tag `verif`). Nothing in this file is compiled into a normal build.
+
+func vhook(point string, args ...interface{}) { proxycore.VerifEmit(point, args...) }
+
+// VerifRequestInfo identifies a forwarded client request: the client's socket address as the proxy
+// sees it and the client's stream id.
+func VerifRequestInfo(req interface{}) (client string, stream int16, ok bool) {
+	if w, isReq := req.(proxycore.Request); isReq {
+		if orig, wrapped := proxycore.VerifUnwrapRequest(w); wrapped {
+			req = orig
+		}
+	}
+	r, ok := req.(*request)
+	if !ok || r.client == nil || r.client.conn == nil {
+		return "", 0, false
+	}
+	return r.client.conn.RemoteAddr().String(), r.stream, true
+}
+
+// VerifSetUnsupportedWriteConsistencies fills the write-consistency override settings of a Config from
+// their textual names (the element type of the fields is not exported).
+func VerifSetUnsupportedWriteConsistencies(cfg *Config, unsupported []string, override string) error {
+	cfg.UnsupportedWriteConsistencies = nil
+	for _, n := range unsupported {
+		var w clWrapper
+		if err := w.UnmarshalText([]byte(n)); err != nil {
+			return err
+		}
+		cfg.UnsupportedWriteConsistencies = append(cfg.UnsupportedWriteConsistencies, w)
+	}
+	if override != "" {
+		var w clWrapper
+		if err := w.UnmarshalText([]byte(override)); err != nil {
+			return err
+		}
+		cfg.UnsupportedWriteConsistencyOverride = w
+	}
+	return nil
+}
